@@ -31,8 +31,54 @@ def crystal_system(no):
     return "cubic"
 
 
-def random_cellpar(rng, no):
+LAST_LATTICE_MODE = "generic"
+
+
+def near_metric_cellpar(rng, no):
+    """Pseudo-symmetric lattices: the free parameters lie 1.2-6 degrees / 1.5-5 % away from a more symmetric
+    metric (beta near 90, triclinic angles near 90, a near b, c near a).  Far enough for the conditioning window
+    (10*tol = 0.1 A on 4-9 A vectors), close enough that any angular or relative tolerance that replaces the
+    distance tolerance of the symmetry search would merge them."""
     cs = crystal_system(no)
+
+    def off():
+        return float(rng.choice([-1, 1]) * rng.uniform(1.2, 6.0))
+
+    def near(x):
+        return float(x * (1 + rng.choice([-1, 1]) * rng.uniform(0.015, 0.05)))
+    a, b, c = (float(x) for x in rng.uniform(4.0, 9.5, 3))
+    if cs == "triclinic":
+        k = int(rng.integers(0, 3))
+        ang = [90 + off(), 90 + off(), 90 + off()]
+        if k == 1:
+            ang[int(rng.integers(3))] = float(rng.uniform(70, 110))
+        if rng.random() < 0.3:
+            b = near(a)
+        return [a, b, c] + ang
+    if cs == "monoclinic":
+        if rng.random() < 0.3:
+            c = near(a)
+        return [a, b, c, 90, 90 + abs(off()), 90]
+    if cs == "orthorhombic":
+        j = int(rng.integers(3))
+        l = [a, b, c]
+        l[(j + 1) % 3] = near(l[j])
+        return l + [90, 90, 90]
+    if cs == "tetragonal":
+        return [a, a, near(a), 90, 90, 90]
+    if cs in ("trigonal", "hexagonal"):
+        return [a, a, near(a) if rng.random() < 0.5 else near(a * 1.633), 90, 90, 120]
+    return [a, a, a, 90, 90, 90]
+
+
+def random_cellpar(rng, no, near_metric=None):
+    """near_metric: None = 30 % of the non-cubic draws, True = always."""
+    cs = crystal_system(no)
+    global LAST_LATTICE_MODE
+    LAST_LATTICE_MODE = "generic"
+    if cs != "cubic" and (near_metric or rng.random() < 0.3):
+        LAST_LATTICE_MODE = "near_metric"
+        return near_metric_cellpar(rng, no)
     for _ in range(100):
         l = np.sort(rng.uniform(4.0, 9.5, 3))
         if l[1] / l[0] < 1.07 or l[2] / l[1] < 1.07:
@@ -105,14 +151,16 @@ def min_distance(atoms):
     return float(d.min())
 
 
-def build(rng, no, n_orbits=None, special_bias=0.5, max_atoms=120, scale=1.0):
+def build(rng, no, n_orbits=None, special_bias=0.5, max_atoms=120, scale=1.0, near_metric=None, general_first=False):
     """One crystal of (intended) group `no` in ASE setting 1.  Returns (atoms, meta) or (None, reason)."""
     n_orbits = n_orbits or int(rng.integers(1, 4))
-    cellpar = random_cellpar(rng, no)
+    cellpar = random_cellpar(rng, no, near_metric)
     cellpar = [x * scale for x in cellpar[:3]] + list(cellpar[3:])
     basis, kinds = [], []
-    for _ in range(n_orbits):
-        if rng.random() < special_bias:
+    if general_first:
+        n_orbits = max(2, n_orbits)
+    for i_orb in range(n_orbits):
+        if rng.random() < special_bias and not (general_first and i_orb == 0):
             x, k = special_point(rng, no)
             kinds.append("special%d" % k)
         else:
@@ -141,7 +189,8 @@ def build(rng, no, n_orbits=None, special_bias=0.5, max_atoms=120, scale=1.0):
         return None, "atoms_too_close"
     a = Atoms(numbers=a.get_atomic_numbers(), positions=a.get_positions(), cell=a.get_cell().array, pbc=True)
     meta = {"group": no, "cellpar": [round(x, 5) for x in cellpar], "basis": [list(b) for b in basis], "symbols": symbols,
-            "orbit_kinds": kinds, "primitive_input": prim, "natoms": len(a), "system": crystal_system(no)}
+            "orbit_kinds": kinds, "primitive_input": prim, "natoms": len(a), "system": crystal_system(no),
+            "lattice_mode": LAST_LATTICE_MODE}
     return a, meta
 
 
@@ -177,14 +226,15 @@ def stable(atoms, no, tol):
     return True, None, mid
 
 
-def make_crystal(rng, no, tol, tries=80, special_bias=0.5, max_atoms=120):
+def make_crystal(rng, no, tol, tries=80, special_bias=0.5, max_atoms=120, near_metric=None, general_first=False):
     """Tries until a well-conditioned crystal of group `no` is found.  Returns (atoms, meta, discards)."""
     discards = {}
     for k in range(tries):
         # more orbits / more general points as attempts fail (low-symmetry groups need them)
         n_orb = int(rng.integers(1, 4)) if k < tries // 2 else 3
         bias = special_bias if k < tries // 2 else special_bias / 2
-        a, meta = build(rng, no, n_orbits=n_orb, special_bias=bias, max_atoms=max_atoms, scale=1.0 + 0.6 * k / tries)
+        a, meta = build(rng, no, n_orbits=n_orb, special_bias=bias, max_atoms=max_atoms, scale=1.0 + 0.6 * k / tries, near_metric=near_metric,
+                        general_first=general_first)
         if a is None:
             discards[meta] = discards.get(meta, 0) + 1
             continue
